@@ -125,7 +125,7 @@ PROPS = {
         "level": "proof",
         "lean_modules": ["SqlizeModel.Props.C05"],
         "theorems": ["Sqlize.C05.split_invariant", "Sqlize.C05.calls_invariant", "Sqlize.C05.rejected_unchanged", "Sqlize.C05.parse_before_edit",
-                     "Sqlize.C05.load_keeps_inv", "Sqlize.C05.rename_onto_existing_breaks", "Sqlize.readScript_inv", "Sqlize.fromString_inv", "Sqlize.C05.names_and_positions", "Sqlize.C05.names_positions_types", "Sqlize.ReaderMysql.step_rel", "Sqlize.ReaderMysql.fidelity"],
+                     "Sqlize.C05.load_keeps_inv", "Sqlize.C05.rename_onto_existing_breaks", "Sqlize.readScript_inv", "Sqlize.fromString_inv", "Sqlize.C05.names_and_positions", "Sqlize.C05.names_positions_types", "Sqlize.C05.names_positions_types_options", "Sqlize.ReaderMysql.step_rel", "Sqlize.ReaderMysql.fidelity"],
         "suites": [{"name": "script"}],
         "corr_points": ["load", "state", "dump"],
         "rule": SCRIPT_RULE,
